@@ -264,6 +264,13 @@ pub(crate) mod verif_dec {
             assert!(!r.faulted || r.fault_kind == 0, "[C10] success is never reported when a read failed (other than a retried interruption)");
             assert!(!w.faulted, "[C10] success is never reported when a write or flush failed");
         }
+        if !nat && !w.faulted {
+            if let Err(e) = &res {
+                if !matches!(e, DecryptError::UnexpectedData) {
+                    assert!(w.released == opened, "[C13,C04] when a later chunk fails, every chunk authenticated before it has already been written: the output holds exactly the authenticated prefix");
+                }
+            }
+        }
         match &res {
             Err(DecryptError::IORead(_)) => { assert!(!w.faulted, "[C10] IORead is not reported for a failing sink"); }
             Err(DecryptError::IOWrite(_)) => { assert!(w.faulted, "[C10] IOWrite reported only for a failing write or flush"); }
@@ -515,27 +522,55 @@ pub(crate) mod verif_hdr_dec {
     /// read_exact is served at concrete offsets for the request shapes a header parser makes (4 bytes at 0, then
     /// 128 or 32 bytes at 4); any other shape sets R_LIMIT (=> inconclusive).
     pub static mut R_LIMIT: bool = false;
-    pub struct HdrReader { pub data: [u8; 140], pub len: usize }
-    impl Read for HdrReader {
-        fn read(&mut self, buf: &mut [u8]) -> std::io::Result<usize> {
-            unsafe { R_CALLS += 1; R_LIMIT = true; }
-            Ok(0)
+    pub struct HdrReader { pub data: [u8; 140], pub len: usize, pub short: bool }
+    impl HdrReader {
+        /// copy `d` bytes from concrete offset `c` (the shapes a header parser can ask for, with or without one short read)
+        fn deliver(&self, buf: &mut [u8], c: usize, d: usize) -> bool {
+            match (c, d) {
+                (0, 4) => buf[..4].copy_from_slice(&self.data[0..4]),
+                (0, 3) => buf[..3].copy_from_slice(&self.data[0..3]),
+                (3, 1) => buf[..1].copy_from_slice(&self.data[3..4]),
+                (4, 128) => buf[..128].copy_from_slice(&self.data[4..132]),
+                (4, 127) => buf[..127].copy_from_slice(&self.data[4..131]),
+                (131, 1) => buf[..1].copy_from_slice(&self.data[131..132]),
+                (4, 32) => buf[..32].copy_from_slice(&self.data[4..36]),
+                (4, 31) => buf[..31].copy_from_slice(&self.data[4..35]),
+                (35, 1) => buf[..1].copy_from_slice(&self.data[35..36]),
+                _ => return false,
+            }
+            true
         }
-        fn read_exact(&mut self, buf: &mut [u8]) -> std::io::Result<()> {
+    }
+    impl Read for HdrReader {
+        /// A conforming source: returns what is available, or - when `short` - one byte less than asked for (the
+        /// remaining byte on the next call). std's real read_exact loop runs on top of it.
+        fn read(&mut self, buf: &mut [u8]) -> std::io::Result<usize> {
             unsafe {
                 R_CALLS += 1;
                 let want = buf.len();
-                if self.len - R_CONSUMED < want {
-                    R_CONSUMED = self.len;
-                    return Err(std::io::Error::from(std::io::ErrorKind::UnexpectedEof));
+                let avail = self.len - R_CONSUMED;
+                if want == 0 || avail == 0 { return Ok(0); }
+                let mut d = if avail < want { avail } else { want };
+                if self.short && d == want && want > 1 { d = want - 1; }
+                if avail < want {
+                    // the file ends inside this field: contents are irrelevant (the caller must report an error)
+                    R_CONSUMED += d;
+                    return Ok(d);
                 }
-                if R_CONSUMED == 0 && want == 4 { buf.copy_from_slice(&self.data[0..4]); }
-                else if R_CONSUMED == 4 && want == 128 { buf.copy_from_slice(&self.data[4..132]); }
-                else if R_CONSUMED == 4 && want == 32 { buf.copy_from_slice(&self.data[4..36]); }
-                else { R_LIMIT = true; }
-                R_CONSUMED += want;
-                Ok(())
+                if !self.deliver(buf, R_CONSUMED, d) { R_LIMIT = true; }
+                R_CONSUMED += d;
+                Ok(d)
             }
+        }
+        /// std's read_exact loop, written out for a source that needs at most two calls per request (loop-free)
+        fn read_exact(&mut self, buf: &mut [u8]) -> std::io::Result<()> {
+            let want = buf.len();
+            if want == 0 { return Ok(()); }
+            let k = self.read(buf)?;
+            if k == want { return Ok(()); }
+            if k == 0 { return Err(std::io::Error::from(std::io::ErrorKind::UnexpectedEof)); }
+            let k2 = self.read(&mut buf[k..])?;
+            if k + k2 == want { Ok(()) } else { Err(std::io::Error::from(std::io::ErrorKind::UnexpectedEof)) }
         }
     }
     /// E-CUT: message formatting produces nothing (message content is not the subject here)
@@ -622,7 +657,7 @@ pub(crate) mod verif_hdr_dec {
         unsafe { ND_FAIL = nfail; DC_FAIL = cfail; }
         let sk = PrivateKey::try_from(&r[..]).unwrap();
         let pk = PublicKey::try_from(&rpk[..]).unwrap();
-        let mut rd = HdrReader { data, len };
+        let mut rd = HdrReader { data, len, short: kani::any() };
         let mut w = PCount;
         let res = key_decrypt(&mut rd, &mut w, &sk, &pk, AsymFileFormat::V1);
         let magic_ok = len >= 4 && data[0] == 0x65 && data[1] == 0x67 && data[2] == 0x6b && data[3] == 0x10;
@@ -696,7 +731,7 @@ pub(crate) mod verif_hdr_dec {
         kani::assume(pl <= 4);
         let cfail: bool = kani::any();
         unsafe { DC_FAIL = cfail; }
-        let mut rd = HdrReader { data, len };
+        let mut rd = HdrReader { data, len, short: kani::any() };
         let mut w = PCount;
         let res = pass_decrypt(&mut rd, &mut w, &pwb[..pl], PassFileFormat::V1);
         let magic_ok = len >= 4 && data[0] == 0x65 && data[1] == 0x67 && data[2] == 0x6b && data[3] == 0x20;
